@@ -14,19 +14,42 @@
 #define STR_MAX (1UL << 40)
 #endif
 void verif_stubs_init(void);
-#ifdef VERIF_NATIVE
+#if defined(VERIF_NATIVE) || defined(UNIT_B)
 void verif_stubs_init(void) {}
 #endif
 
 size_t g_n;          /* ghost: length of the registered string argument (index of its first NUL) */
 const char * g_str;  /* ghost: the registered string argument */
 #define DLEN(d) ((d)->currentStringLength)
+
+/* ---- Unit B (bounded): byte CONTENT against the ideal string.  g_old is a ghost copy of the
+ * buffer before the call, g_k a ghost index chosen nondeterministically by the harness (so every
+ * clause "byte g_k of the result is ..." is a universally quantified statement over g_k). ---- */
+#ifdef UNIT_B
+#ifndef CAPB
+#define CAPB 8
+#endif
+#ifndef STRB
+#define STRB 4
+#endif
+#undef CAP_MAX
+#undef STR_MAX
+#define CAP_MAX CAPB
+#define STR_MAX STRB
+char g_old[CAPB];
+size_t g_k, g_L;            /* ghost index; ghost old length */
+#define SARG(i) (g_str[(i)])
+#define CONTENT(cond, expected) && (!(cond) || (expected))
+#else
+#define CONTENT(cond, expected)
+#endif
 #define GROWN(d) (DLEN(d) - OLD(DLEN(d)))
 
 /* ---- contracts (parameter names are the real ones) ---- */
 #define PRE_erase DS_WF(baseString)
 #define POST_erase (DS_WF(baseString) && DLEN(baseString) == M_ERASE_LEN(OLD(DLEN(baseString)), pos, len) \
-	&& baseString->currentStringBufferSize == OLD(baseString->currentStringBufferSize) && baseString->str == OLD(baseString->str))
+	&& baseString->currentStringBufferSize == OLD(baseString->currentStringBufferSize) && baseString->str == OLD(baseString->str) \
+	CONTENT(g_k < DLEN(baseString), baseString->str[g_k] == ((g_k < pos || DLEN(baseString) == g_L) ? g_old[g_k] : g_old[g_k + len])))
 CONTRACT(void, d_string_erase, (DString * baseString, size_t pos, size_t len), PRE_erase, POST_erase, DS_FRAME_NOGROW(baseString))
 
 /* a string argument s with a NUL at index g_n; the amount appended is a NUL index of s that is <= g_n */
@@ -34,52 +57,75 @@ CONTRACT(void, d_string_erase, (DString * baseString, size_t pos, size_t len), P
 #define POST_grow_by_strlen(d, s) (DS_WF(d) && DLEN(d) == OLD(DLEN(d)) + g_n)
 
 #define PRE_append (DS_WF(baseString) && DLEN(baseString) < CAP_MAX && STR_ARG(appendedString))
-#define POST_append POST_grow_by_strlen(baseString, appendedString)
+#define POST_append (POST_grow_by_strlen(baseString, appendedString) \
+	CONTENT(g_k < DLEN(baseString), baseString->str[g_k] == (g_k < g_L ? g_old[g_k] : SARG(g_k - g_L))))
 CONTRACT(void, d_string_append, (DString * baseString, const char * appendedString), PRE_append, POST_append, DS_FRAME(baseString))
 
 #define PRE_append_c DS_WF(baseString)
 #define POST_append_c (DS_WF(baseString) && DLEN(baseString) == OLD(DLEN(baseString)) + (appendedCharacter ? 1 : 0) \
-	&& (appendedCharacter == 0 || baseString->str[DLEN(baseString) - 1] == appendedCharacter))
+	&& (appendedCharacter == 0 || baseString->str[DLEN(baseString) - 1] == appendedCharacter) \
+	CONTENT(g_k < g_L, baseString->str[g_k] == g_old[g_k]))
 CONTRACT(void, d_string_append_c, (DString * baseString, char appendedCharacter), PRE_append_c, POST_append_c, DS_FRAME(baseString))
 
 #define PRE_append_c_array (DS_WF(baseString) && DLEN(baseString) < CAP_MAX && STR_ARG(appendedChars) && (bytes == SZ_MAX || bytes <= g_n + 1))
-#define POST_append_c_array (DS_WF(baseString) && DLEN(baseString) == OLD(DLEN(baseString)) + (bytes == SZ_MAX ? g_n : bytes))
+#define POST_append_c_array (DS_WF(baseString) && DLEN(baseString) == OLD(DLEN(baseString)) + (bytes == SZ_MAX ? g_n : bytes) \
+	CONTENT(g_k < DLEN(baseString), baseString->str[g_k] == (g_k < g_L ? g_old[g_k] : SARG(g_k - g_L))))
 CONTRACT(void, d_string_append_c_array, (DString * baseString, const char * appendedChars, size_t bytes), PRE_append_c_array, POST_append_c_array, DS_FRAME(baseString))
 
 #define PRE_prepend (DS_WF(baseString) && DLEN(baseString) < CAP_MAX && STR_ARG(prependedString))
-#define POST_prepend POST_grow_by_strlen(baseString, prependedString)
+#define POST_prepend (POST_grow_by_strlen(baseString, prependedString) \
+	CONTENT(g_k < DLEN(baseString), baseString->str[g_k] == (g_k < g_n ? SARG(g_k) : g_old[g_k - g_n])))
 CONTRACT(void, d_string_prepend, (DString * baseString, const char * prependedString), PRE_prepend, POST_prepend, DS_FRAME(baseString))
 
 #define PRE_insert (DS_WF(baseString) && DLEN(baseString) < CAP_MAX && STR_ARG(insertedString))
-#define POST_insert POST_grow_by_strlen(baseString, insertedString)
+#define INS_P M_CLAMP(g_L, pos)
+#define POST_insert (POST_grow_by_strlen(baseString, insertedString) \
+	CONTENT(g_k < DLEN(baseString), baseString->str[g_k] == (g_k < INS_P ? g_old[g_k] : (g_k < INS_P + g_n ? SARG(g_k - INS_P) : g_old[g_k - g_n]))))
 CONTRACT(void, d_string_insert, (DString * baseString, size_t pos, const char * insertedString), PRE_insert, POST_insert, DS_FRAME(baseString))
 
 #define PRE_insert_c DS_WF(baseString)
 #define POST_insert_c (DS_WF(baseString) && DLEN(baseString) == OLD(DLEN(baseString)) + (insertedCharacter ? 1 : 0) \
-	&& (insertedCharacter == 0 || baseString->str[M_CLAMP(OLD(DLEN(baseString)), pos)] == insertedCharacter))
+	&& (insertedCharacter == 0 || baseString->str[M_CLAMP(OLD(DLEN(baseString)), pos)] == insertedCharacter) \
+	CONTENT(g_k < DLEN(baseString) && insertedCharacter != 0 && g_k != M_CLAMP(g_L, pos), baseString->str[g_k] == (g_k < M_CLAMP(g_L, pos) ? g_old[g_k] : g_old[g_k - 1])) \
+	CONTENT(g_k < DLEN(baseString) && insertedCharacter == 0, baseString->str[g_k] == g_old[g_k]))
 CONTRACT(void, d_string_insert_c, (DString * baseString, size_t pos, char insertedCharacter), PRE_insert_c, POST_insert_c, DS_FRAME(baseString))
 
 #define PRE_insert_c_array (DS_WF(baseString) && DLEN(baseString) < CAP_MAX && STR_ARG(insertedString) && (bytes == SZ_MAX || bytes <= g_n + 1))
-#define POST_insert_c_array (DS_WF(baseString) && DLEN(baseString) == OLD(DLEN(baseString)) + (bytes == SZ_MAX ? g_n : bytes))
+#define INS_N (bytes == SZ_MAX ? g_n : bytes)
+#define POST_insert_c_array (DS_WF(baseString) && DLEN(baseString) == OLD(DLEN(baseString)) + INS_N \
+	CONTENT(g_k < DLEN(baseString), baseString->str[g_k] == (g_k < M_CLAMP(g_L, pos) ? g_old[g_k] : (g_k < M_CLAMP(g_L, pos) + INS_N ? SARG(g_k - M_CLAMP(g_L, pos)) : g_old[g_k - INS_N]))))
 CONTRACT(void, d_string_insert_c_array, (DString * baseString, size_t pos, const char * insertedString, size_t bytes), PRE_insert_c_array, POST_insert_c_array, DS_FRAME(baseString))
 
 #define SUBN M_SUBSTR_N(DLEN(d), start, len)
 #define PRE_copy_substring DS_WF(d)
 #define POST_copy_substring (DS_WF(d) && DLEN(d) == OLD(DLEN(d)) && d->str == OLD(d->str) \
-	&& (SUBN == SZ_MAX ? RET == NULL : (RET != NULL && __CPROVER_r_ok(RET, SUBN + 1) && RET[SUBN] == 0)))
+	&& (SUBN == SZ_MAX ? RET == NULL : (RET != NULL && __CPROVER_r_ok(RET, SUBN + 1) && RET[SUBN] == 0)) \
+	CONTENT(SUBN != SZ_MAX && g_k < SUBN, RET[g_k] == g_old[start + g_k]) \
+	CONTENT(g_k < DLEN(d), d->str[g_k] == g_old[g_k]))
 CONTRACT(char *, d_string_copy_substring, (DString * d, size_t start, size_t len), PRE_copy_substring, POST_copy_substring, __CPROVER_assigns())
 
 /* ---- harness helpers: the harness builds the memory SHAPE (objects of symbolic
  * size); the logical precondition is the contract's requires clause ---- */
+#ifdef UNIT_B
+/* bounded: fill the buffer with symbolic bytes, keep a ghost copy, pick the ghost index */
+#define DS_FILL(d) { IN_ARR(char, fill, CAPB); for (size_t i_ = 0; i_ < CAPB; i_++) { if (i_ < cap) { ASSUME(i_ >= slen || fill[i_] != 0); (d)->str[i_] = fill[i_]; } g_old[i_] = (i_ < cap) ? fill[i_] : 0; } } \
+	{ IN(size_t, k); g_k = k; } g_L = slen;
+#define STR_FILL(s) { IN_ARR(char, sfill, STRB); for (size_t i_ = 0; i_ < STRB; i_++) { if (i_ < n) { ASSUME(sfill[i_] != 0); (s)[i_] = sfill[i_]; } } }
+#else
+#define DS_FILL(d)
+#define STR_FILL(s)
+#endif
+
 #define MK_DS(d) \
 	IN(size_t, cap); IN(size_t, slen); \
 	ASSUME(cap >= 1 && cap <= CAP_MAX && slen < cap); \
 	DString * d = ALLOC(sizeof(DString)); \
-	d->str = ALLOC(cap); d->currentStringBufferSize = cap; d->currentStringLength = slen; d->str[slen] = 0;
+	d->str = ALLOC(cap); d->currentStringBufferSize = cap; d->currentStringLength = slen; \
+	DS_FILL(d) d->str[slen] = 0;
 
 #define MK_STR(s) \
 	IN(size_t, n); ASSUME(n < STR_MAX); \
-	char * s = ALLOC(n + 1); s[n] = 0; g_n = n; g_str = s;
+	char * s = ALLOC(n + 1); STR_FILL(s) s[n] = 0; g_n = n; g_str = s;
 
 void h_erase(void) {
 	verif_stubs_init();
